@@ -145,6 +145,8 @@ structure Acc where
   loopCount : Int := -1
   loopResetCount : Int := 0
   enabled : Bool := true
+  /-- `last_loop_jump_time`: `play_time` at the last jump back to the loop point (-1 = none yet) -/
+  lastLoopJump : Int := -1
   deriving DecidableEq, Repr
 
 /-- what the hooks of a derived player are told -/
@@ -168,8 +170,10 @@ def accStep (loopHook : Bool) (a : Acc) (posBefore : Nat) (c' : Core) (o : Out) 
     else (a1, c', .event v)
   | .ret _ => (a1, c', .nothing)
   | .rootEnd _ =>
-    if a1.loopPosition ≠ -1 ∧ (a1.playTime : Int) ≠ a1.loopPlayTime ∧ loopHook then
-      ({ a1 with loopCount := a1.loopCount + 1 }, { c' with position := a1.loopPosition.toNat }, .nothing)
+    -- no jump if no time has passed since the last one: the next pass would be the same
+    if a1.loopPosition ≠ -1 ∧ (a1.playTime : Int) ≠ a1.loopPlayTime ∧ (a1.playTime : Int) ≠ a1.lastLoopJump ∧ loopHook then
+      ({ a1 with loopCount := a1.loopCount + 1, lastLoopJump := a1.playTime },
+       { c' with position := a1.loopPosition.toNat }, .nothing)
     else ({ a1 with enabled := false }, c', .finish)
 
 structure PState where
